@@ -234,6 +234,7 @@ func init() {
 		Rules: []Rule{
 			{"registry-keeps", "nothing is ever removed from the numbering registry (ids in use cannot be enumerated by the library: list paragraphs live in nested tables, content controls, headers)", ruleRegistryKeeps},
 			{"style-id", "emitted style ids ⊆ registry (constant-set inclusion with loop/range expansion)", func(r *Run) { ruleStyleID(r, "") }},
+			{"exists-by-id", "a predicate wrapping the registry's id look-up that guards a style reference says yes only on the found-edge of that look-up", ruleExistsByID},
 			{"lookup-guarded", "an id that was looked up in the style registry and not found is not written as a style reference on that path", ruleLookupGuarded},
 			{"part-dep", "regenerated parts depend on registry / replaced part", rulePartDep},
 			{"must-update", "registrations on every path", ruleMustUpdate},
